@@ -133,7 +133,7 @@ def campaign(pid, plans):
             states += r.distinct
             transitions += r.generated
         # schedules with the capacity the code really has (10 >= number of members)
-        g = model(wd, pl["name"] + "-gen", cap=10, export=True, simulate=pl.get("simulate", 40), depth=300,
+        g = model(wd, pl["name"] + "-gen", cap=10, export=True, simulate=pl.get("simulate", 40), depth=pl.get("depth", 300),
                   tlcseed=seed() + len(samples), liveness=False, **kw)
         require_ok(g, "ReceiverSet gen " + pl["name"])
         sch, seen = [], set()
